@@ -156,23 +156,77 @@ def run(ctx, w):
 
     # ---- L6 ----------------------------------------------------------------------------------------------------------------
     from rules import c06
-    ctx.rule("W7", "every buffer created for the alternate screen is built with scrollback limit Some(0); primary-role buffers take the configured limit")
-    some0 = ("adt", "core::option::Option", "Some", ("0",), (("const", 0),))
-    n7 = 0
-    for fn in sorted(w.bodies):
-        if S._impl_of(fn) != S.term_ty:
-            continue
-        TT = w.terms(fn)
-        for cs in E.call_sites(fn, S.buffer_ctor):
-            role = c06.buffer_role(w, S, R, fn, cs)
-            lim = WD.strip_names(TT.operand(cs.term["args"][2], cs.point))
-            n7 += 1
-            if role == "alternate":
-                ctx.check(lim == some0, "W7", "%s:%s" % (fn, shared.site_key(w, fn, cs.point)), "%s creates an alternate-screen buffer with scrollback limit %s" % (fn, w.tstr(fn, lim)), loc=w.site_loc(cs), sample={"fn": fn, "role": role})
-            elif role == "primary":
-                okp = lim[0] == "load" and lim != some0
-                ctx.check(okp, "W7", "%s:%s" % (fn, shared.site_key(w, fn, cs.point)), "%s creates a primary-screen buffer with limit %s instead of the configured one" % (fn, w.tstr(fn, lim)), loc=w.site_loc(cs), sample={"fn": fn, "role": role})
-            else:
-                ctx.violation("W7", "%s:%s" % (fn, shared.site_key(w, fn, cs.point)), "cannot tell the role of the buffer created in %s" % fn, loc=w.site_loc(cs))
-    ctx.floor("W7", 3, "buffer construction sites")
+    c06.role_limits(ctx, w, S, R, "W7")
+    config_plumbing(ctx, w, S, R, "L7")
     c14.trim_rules(ctx, w, S, R, T)
+
+
+def config_plumbing(ctx, w, S, R, rule):
+    """The configuration given to the builder reaches the terminal unchanged: each builder option writes only its
+    own field (setting one option never resets another), build() hands every field to the terminal's constructor,
+    and the constructor stores the limit it was given."""
+    E = w.E
+    ctx.rule(rule, "each builder option writes only its own field, from its own parameters; build() passes every builder field to Terminal::new; the terminal keeps the limit it was given")
+    vt_ty = "vt::Vt"
+    builders = [fn for fn, fo in w.facts.fns.items() if fn in w.bodies and (fo.get("output") or {}).get("s") == vt_ty and fo.get("inputs") and fo["inputs"][0]["s"].startswith("&")
+                and (fo.get("impl_self") or {}).get("adt") not in (None, vt_ty)]
+    if len(builders) != 1:
+        ctx.missing_anchor(rule, "the builder's build() routine", "(%s)" % builders)
+        return
+    build = builders[0]
+    bty = w.facts.fns[build]["impl_self"]["adt"]
+    bfields = [f["name"] for f in w.facts.struct_fields(bty)]
+    owners = {}
+    for fn, fo in sorted(w.facts.fns.items()):
+        if fn not in w.bodies or (fo.get("impl_self") or {}).get("adt") != bty or fo.get("impl_trait") or not fo.get("inputs") or not fo["inputs"][0]["s"].startswith("&mut "):
+            continue
+        W = {p for p in E.summaries[fn].W if p[0] == "arg1"}
+        flds = sorted({p[1] for p in W if len(p) >= 2})
+        whole = any(len(p) == 1 for p in W)
+        ok = not whole and len(flds) == 1
+        ctx.check(ok, rule, "option:" + fn, "%s writes %s of the builder: setting this option also changes other options (the configured scrollback limit / size is silently lost depending on the call order)" %
+                  (fn, "the whole value" if whole else flds), loc=w.fn_loc(fn), sample={"fn": fn, "writes": sorted(M.path_str(p) for p in W)})
+        if ok:
+            owners.setdefault(flds[0], []).append(fn)
+            for f2, pt, p, t in w.assign_sites({fn}, lambda p: p[0] == "arg1"):
+                t = WD.strip_names(t)
+                loads = set()
+
+                def walk(x):
+                    if isinstance(x, tuple):
+                        if x and x[0] == "load":
+                            loads.add(x[1][0])
+                        for y in x:
+                            walk(y)
+                walk(t)
+                okv = bool(loads) and all(l.startswith("arg") and l != "arg1" for l in loads)
+                ctx.check(okv, rule, "value:" + fn, "%s stores %s; the option must store the value it was called with" % (fn, w.tstr(fn, t)[:80]), loc=w.stmt_loc(fn, pt), sample={"fn": fn, "value": w.tstr(fn, t)[:80]})
+    for f in bfields:
+        ctx.check(len(owners.get(f, [])) >= 1, rule, "field:" + f, "no builder option sets `%s`" % f, sample={"field": f, "options": owners.get(f, [])})
+    T = w.terms(build)
+    ctor = S.term_ty + "::new"
+    sites = [cs for cs in E.call_sites(build) if cs.callee == ctor]
+    if len(sites) != 1:
+        ctx.violation(rule, "build:ctor", "%s does not construct the terminal exactly once" % build, loc=w.fn_loc(build))
+    else:
+        args = [WD.strip_names(T.operand(a, sites[0].point)) for a in sites[0].term["args"]]
+        got = [a[1][1] if a[0] == "load" and a[1][0] == "arg1" and len(a[1]) == 2 else None for a in args]
+        ctx.check(sorted(x for x in got if x) == sorted(bfields) and None not in got, rule, "build:args", "%s passes %s to %s; every builder field (%s) must be handed over as configured" %
+                  (build, [w.tstr(build, a)[:40] for a in args], ctor, bfields), loc=w.site_loc(sites[0]), sample={"args": [w.tstr(build, a)[:40] for a in args]})
+        # the terminal stores the limit parameter
+        lim_idx = [i for i, a in enumerate(w.facts.fns[ctor]["inputs"]) if a["s"].startswith("core::option::Option<usize>")]
+        tf = [f["name"] for f in w.facts.struct_fields(S.term_ty) if f["ty"]["s"] == "core::option::Option<usize>"]
+        if len(lim_idx) == 1 and len(tf) == 1:
+            cb = w.body(ctor)
+            CT = w.terms(ctor)
+            okl = False
+            for bl in cb.normal_blocks():
+                for i, st in enumerate(cb.blocks[bl]["stmts"]):
+                    if st["k"] == "assign" and st["rv"]["k"] == "aggregate" and st["rv"].get("adt") == S.term_ty:
+                        names = st["rv"]["field_names"]
+                        t = WD.strip_names(CT.operand(st["rv"]["ops"][names.index(tf[0])], (bl, i)))
+                        okl = t == ("load", ("arg%d" % (lim_idx[0] + 1),))
+            ctx.check(okl, rule, "ctor:limit", "%s does not keep the scrollback limit it was given in `%s`" % (ctor, tf[0]), loc=w.fn_loc(ctor))
+        else:
+            ctx.missing_anchor(rule, "limit parameter / field of the terminal")
+    ctx.floor(rule, 6, "configuration plumbing obligations")
